@@ -5,7 +5,8 @@
     InvB  well-formedness: table rows are `seen`, roster ids belong to rows of the current life, every row
           carries the persisted framework id, nothing is in flight for a dead core
     InvQ  orphans: while connected, every killable task of an earlier life is covered by the SUBSCRIBED still
-          to be read, by a reconciliation answer on its way, or by a KILL already sent
+          to be read, by a reconciliation answer on its way, or by a KILL sent SINCE the latest RECONCILE call
+          of the current life (so: every reconciliation round kills it again, `orphansKilledEachRound`)
     InvP  (under `noReconnWhileOwning`) no reconciliation update in flight names a locked roster task
 -/
 import ControlModel.Spec.C18
@@ -96,22 +97,91 @@ theorem invB_step (c : Cfg) (W : World) (hc : Sound c) (s : St) (x : Step) (hx :
   · cases x <;> grind [step, St.exit]
   · cases x <;> grind [step, St.exit, stepOk]
 
-theorem orphansKilled_killsFor (l w ts) (log : List Out) (h : orphansKilled log = true) :
-    orphansKilled (killsFor l w ts ++ log) = true := by
+/-! ### the log since the latest RECONCILE of a life -/
+
+@[simp] theorem sinceReconcile_kill (l l' t w o) (log : List Out) :
+    sinceReconcile l (.kill l' t w o :: log) = .kill l' t w o :: sinceReconcile l log := rfl
+@[simp] theorem sinceReconcile_snap (l l' os) (log : List Out) :
+    sinceReconcile l (.snap l' os :: log) = .snap l' os :: sinceReconcile l log := rfl
+@[simp] theorem sinceReconcile_subscribe (l l' c) (log : List Out) :
+    sinceReconcile l (.subscribe l' c :: log) = .subscribe l' c :: sinceReconcile l log := rfl
+@[simp] theorem sinceReconcile_persist (l l' f) (log : List Out) :
+    sinceReconcile l (.persist l' f :: log) = .persist l' f :: sinceReconcile l log := rfl
+@[simp] theorem sinceReconcile_stateError (l l') (log : List Out) :
+    sinceReconcile l (.stateError l' :: log) = .stateError l' :: sinceReconcile l log := rfl
+@[simp] theorem sinceReconcile_reconcile_self (l) (log : List Out) :
+    sinceReconcile l (.reconcile l :: log) = [] := by simp [sinceReconcile]
+
+theorem sinceReconcile_killsFor (l l' w ts) (log : List Out) :
+    sinceReconcile l (killsFor l' w ts ++ log) = killsFor l' w ts ++ sinceReconcile l log := by
+  induction ts with
+  | nil => simp [killsFor]
+  | cons a as ih => simpa [killsFor] using ih
+
+/-- what is newer than the latest RECONCILE is in the log -/
+theorem sinceReconcile_sub (l : Nat) (log : List Out) : ∀ o ∈ sinceReconcile l log, o ∈ log := by
+  induction log with
+  | nil => intro o h; cases h
+  | cons a as ih =>
+    intro o h
+    cases a with
+    | reconcile l' =>
+      by_cases e : l' = l
+      · subst e; simp at h
+      · have : sinceReconcile l (.reconcile l' :: as) = .reconcile l' :: sinceReconcile l as := by
+          simp [sinceReconcile, e]
+        rw [this] at h
+        rcases List.mem_cons.mp h with h | h
+        · exact h ▸ List.mem_cons_self
+        · exact List.mem_cons_of_mem _ (ih o h)
+    | kill _ _ _ _ | snap _ _ | subscribe _ _ | persist _ _ | stateError _ =>
+      simp only [sinceReconcile_kill, sinceReconcile_snap, sinceReconcile_subscribe, sinceReconcile_persist,
+        sinceReconcile_stateError] at h
+      rcases List.mem_cons.mp h with h | h
+      · exact h ▸ List.mem_cons_self
+      · exact List.mem_cons_of_mem _ (ih o h)
+
+/-- The per-round statement implies the per-task one: a KILL since the latest RECONCILE is a KILL. -/
+theorem orphansKilled_of_eachRound (log : List Out) (h : orphansKilledEachRound log = true) :
+    orphansKilled log = true := by
+  induction log with
+  | nil => rfl
+  | cons a as ih =>
+    simp only [orphansKilledEachRound, Bool.and_eq_true] at h
+    simp only [orphansKilled, Bool.and_eq_true]
+    refine ⟨?_, ih h.2⟩
+    cases a with
+    | snap l os =>
+      have h1 := h.1
+      simp only [List.all_eq_true, List.any_eq_true] at h1 ⊢
+      intro t ht
+      obtain ⟨o, ho, hk⟩ := h1 t ht
+      exact ⟨o, sinceReconcile_sub l as o ho, hk⟩
+    | _ => rfl
+
+theorem eachRound_killsFor (l w ts) (log : List Out) (h : orphansKilledEachRound log = true) :
+    orphansKilledEachRound (killsFor l w ts ++ log) = true := by
   induction ts with
   | nil => simpa [killsFor] using h
-  | cons a as ih => simpa [killsFor, orphansKilled] using ih
+  | cons a as ih => simpa [killsFor, orphansKilledEachRound] using ih
 
-/-- a KILL of life `l` for task `t`, caused by a reconciliation update, is in the log -/
-def Killed (log : List Out) (l t : Nat) : Prop := ∃ o, Out.kill l t (.update .recon) o ∈ log
+/-- a KILL of life `l` for task `t`, caused by a reconciliation update, is in the log — and it is NEWER than
+    the latest RECONCILE call of life `l` -/
+def Killed (log : List Out) (l t : Nat) : Prop := ∃ o, Out.kill l t (.update .recon) o ∈ sinceReconcile l log
 
-theorem Killed.any {log : List Out} {l t : Nat} (h : Killed log l t) : log.any (isReconKill l t) = true := by
+theorem Killed.any {log : List Out} {l t : Nat} (h : Killed log l t) :
+    (sinceReconcile l log).any (isReconKill l t) = true := by
   obtain ⟨o, ho⟩ := h
   exact List.any_eq_true.mpr ⟨_, ho, by simp [isReconKill]⟩
 
-theorem Killed.mono {log log' : List Out} {l t : Nat} (h : Killed log l t) (hsub : ∀ o ∈ log, o ∈ log') : Killed log' l t := by
+theorem Killed.mono {log log' : List Out} {l t : Nat} (h : Killed log l t)
+    (hsub : ∀ o ∈ sinceReconcile l log, o ∈ sinceReconcile l log') : Killed log' l t := by
   obtain ⟨o, ho⟩ := h
   exact ⟨o, hsub _ ho⟩
+
+theorem Killed.mem {log : List Out} {l t : Nat} (h : Killed log l t) : ∃ o, Out.kill l t (.update .recon) o ∈ log := by
+  obtain ⟨o, ho⟩ := h
+  exact ⟨o, sinceReconcile_sub l log _ ho⟩
 
 /-- the answer to a reconciliation, still on its way to taskman -/
 def Pending (c : Cfg) (s : St) (t : Nat) : Prop :=
@@ -120,10 +190,10 @@ def Pending (c : Cfg) (s : St) (t : Nat) : Prop :=
 structure InvQ (c : Cfg) (s : St) : Prop where
   orphan : s.alive = true → s.stream.isSome = true → ∀ t ∈ s.tasks, t.life < s.life → c.killable t.state = true →
     s.hello.isSome = true ∨ Pending c s t.id ∨ Killed s.log s.life t.id
-  spec : orphansKilled s.log = true
+  spec : orphansKilledEachRound s.log = true
 
 theorem invQ_init (c : Cfg) (kv0 : Option Nat) : InvQ c (init kv0) := by
-  cases kv0 <;> constructor <;> simp [init, orphansKilled]
+  cases kv0 <;> constructor <;> simp [init, orphansKilledEachRound]
 
 theorem mem_answerOf (W : World) (hW : ∀ n t, W.answers n t = true) (n f : Nat) (tasks : List MTask)
     (t : MTask) (ht : t ∈ tasks) (hnt : t.state.terminal = false) (hf : t.fid = f) :
@@ -213,7 +283,7 @@ theorem invQ_orphan_handle (c : Cfg) (W : World)
     have hhello : s'.hello = s.hello := by simp [s', step, hal, hi]; split <;> rfl
     have hqueue : s'.queue = s.queue := by simp [s', step, hal, hi]; split <;> rfl
     have hinbox : s'.inbox = rest := by simp [s', step, hal, hi]; split <;> rfl
-    have hlog : ∀ o ∈ s.log, o ∈ s'.log := by
+    have hlog : ∀ o ∈ sinceReconcile s.life s.log, o ∈ sinceReconcile s.life s'.log := by
       intro o ho; simp [s', step, hal, hi]; split <;> simp [ho]; split <;> simp [ho]
     rw [htasks] at ht; rw [hlife] at hlt; rw [hstream] at hs'
     rw [hhello, hlife]
@@ -236,7 +306,8 @@ theorem invQ_orphan_handle (c : Cfg) (W : World)
 theorem orphan_frame (c : Cfg) (s s' : St) (h : InvQ c s)
     (ht : s'.tasks = s.tasks) (hl : s'.life = s.life) (ha : s'.alive = s.alive) (hst : s'.stream = s.stream)
     (hh : s'.hello = s.hello)
-    (hq : ∀ u ∈ s.queue, u ∈ s'.queue) (hi : ∀ u ∈ s.inbox, u ∈ s'.inbox) (hlog : ∀ o ∈ s.log, o ∈ s'.log) :
+    (hq : ∀ u ∈ s.queue, u ∈ s'.queue) (hi : ∀ u ∈ s.inbox, u ∈ s'.inbox)
+    (hlog : ∀ o ∈ sinceReconcile s.life s.log, o ∈ sinceReconcile s.life s'.log) :
     s'.alive = true → s'.stream.isSome = true → ∀ t ∈ s'.tasks, t.life < s'.life → c.killable t.state = true →
     s'.hello.isSome = true ∨ Pending c s' t.id ∨ Killed s'.log s'.life t.id := by
   intro ha' hs' t htm hlt hk
@@ -275,7 +346,7 @@ theorem invQ_orphan_step (c : Cfg) (W : World) (hc : Sound c) (hW : ∀ n t, W.a
     intro s'
     by_cases hal : s.alive = true
     · by_cases hs : s.stream.isSome = true
-      · apply orphan_frame c s s' h <;> simp [s', step, hs, hal] <;> grind
+      · apply orphan_frame c s s' h <;> simp [s', step, hs, hal, sinceReconcile_killsFor] <;> grind
       · apply orphan_frame c s s' h <;> simp [s', step, hs, hal]
     · simpa [s', step, hal] using h.orphan
   | launch e t' =>
@@ -324,12 +395,12 @@ theorem invQ_orphan_step (c : Cfg) (W : World) (hc : Sound c) (hW : ∀ n t, W.a
         · exact Or.inr (Or.inr h3)
 
 theorem invQ_spec_step (c : Cfg) (W : World) (s : St) (x : Step) (h : InvQ c s) :
-    orphansKilled (step c W s x).log = true := by
+    orphansKilledEachRound (step c W s x).log = true := by
   have q2 := h.spec
   cases x with
   | snapshot =>
     by_cases hs : (s.alive && s.connected && s.queue.isEmpty && s.inbox.isEmpty) = true
-    · simp only [step, hs, if_true, orphansKilled, q2, Bool.and_true]
+    · simp only [step, hs, if_true, orphansKilledEachRound, q2, Bool.and_true]
       simp only [Bool.and_eq_true, St.connected, List.isEmpty_iff, Option.isNone_iff_eq_none] at hs
       obtain ⟨⟨⟨hal, hst, hh⟩, hq⟩, hi⟩ := hs
       apply List.all_eq_true.mpr
@@ -344,15 +415,15 @@ theorem invQ_spec_step (c : Cfg) (W : World) (s : St) (x : Step) (h : InvQ c s) 
     · simpa [step, hs] using q2
   | coreStart => grind [step, St.exit]
   | coreKill => grind [step, St.exit]
-  | coreTerm => grind [step, St.exit, orphansKilled_killsFor]
-  | subscribe => grind [step, St.exit, orphansKilled]
+  | coreTerm => grind [step, St.exit, eachRound_killsFor]
+  | subscribe => grind [step, St.exit, orphansKilledEachRound]
   | drop => grind [step, St.exit]
-  | read => grind [step, St.exit, orphansKilled]
-  | handle => grind [step, St.exit, orphansKilled]
+  | read => grind [step, St.exit, orphansKilledEachRound]
+  | handle => grind [step, St.exit, orphansKilledEachRound]
   | launch e t => grind [step, St.exit]
   | status t st => grind [step, St.exit]
   | reconUpdate t st => grind [step, St.exit]
-  | release e => grind [step, St.exit, orphansKilled_killsFor]
+  | release e => grind [step, St.exit, eachRound_killsFor]
 
 theorem invQ_step (c : Cfg) (W : World) (hc : Sound c) (hW : ∀ n t, W.answers n t = true)
     (s : St) (x : Step) (hx : stepOk c x = true)
